@@ -25,8 +25,35 @@ def parse_comments(text: str) -> tuple[list[dict], list[tuple[int, str]]]:
     comments: list[dict] = []
     outside: list[tuple[int, str]] = []
     i = 0
+    stack: list[tuple[int, str]] = []  # (indent, python name) of the class blocks that are open at the current line
+    pending_pyname: str | None = None
     while i < len(lines):
         ln = lines[i]
+        ind = len(ln) - len(ln.lstrip(" "))
+        st = ln.strip()
+        if st == "}":
+            while stack and stack[-1][0] >= ind:
+                stack.pop()
+        mpn = _PYNAME_LINE.match(ln)
+        if mpn:
+            pending_pyname = mpn.group(1)
+        mcls = re.match(r'^\s*(?:@PythonName\("([^"]*)"\)\s+)?class\s+`?([A-Za-z_][A-Za-z0-9_]*)`?', ln)
+        if mcls:
+            opens = ln.rstrip().endswith("{")
+            if not opens and ln.rstrip().endswith("("):
+                # constructor parameters on the following lines; the block opens where the parenthesis closes
+                j = i + 1
+                while j < len(lines) and not lines[j].strip().startswith(")") and j < i + 200:
+                    j += 1
+                opens = j < len(lines) and lines[j].strip().startswith(")") and lines[j].rstrip().endswith("{")
+                if opens:
+                    # the tool sometimes emits the `class` keyword of a nested class at a smaller indentation than its
+                    # closing parenthesis/brace; the block's indentation is that of the closing parenthesis
+                    ind = len(lines[j]) - len(lines[j].lstrip(" "))
+            if opens:
+                stack.append((ind, mcls.group(1) or pending_pyname or mcls.group(2)))
+        if st and not st.startswith(("@", "//", "/**", "*")):
+            pending_pyname = None
         if ln.strip().startswith("/**"):
             body = []
             j = i
@@ -57,7 +84,7 @@ def parse_comments(text: str) -> tuple[list[dict], list[tuple[int, str]]]:
                 if m:
                     decl = {"kind": m.group("kind"), "name": m.group("name"), "python_name": m.group("pn") or pyname or m.group("name")}
                 break
-            comments.append({"line": i + 1, "text": "\n".join(body), "decl": decl})
+            comments.append({"line": i + 1, "text": "\n".join(body), "decl": decl, "enclosing": stack[-1][1] if stack else None})
             i = j
             continue
         outside.append((i + 1, ln))
@@ -75,6 +102,24 @@ def _home_names(info: dict, aliases: dict | None = None) -> tuple[set[str], set[
             if owner == q or owner == q + ".__init__":
                 names |= set(al)
     return kinds, names
+
+
+def _allowed_classes(info: dict, probes: dict, aliases: dict) -> set[str]:
+    """Python names of the classes inside whose block a member's documentation may legitimately appear: the class that
+    owns the member (or its re-export alias) and, for public members of a private base, the public subclasses into which
+    they are inlined.  Empty when the owner is not a class member (module-level function) or unknown."""
+    classes = sorted(probes.get("classes") or [], key=len, reverse=True)
+    owner = info["owner"]
+    cls_q = next((c for c in classes if owner == c or owner.startswith(c + ".")), None)
+    if cls_q is None or owner == cls_q:
+        return set()
+    allowed = {cls_q.split(".")[-1]} | set(aliases.get(cls_q, []))
+    for g in probes.get("inherit_groups") or []:
+        base_like = {g["base"], g["base"].rsplit(".", 1)[0] + "._Root"}
+        if cls_q in base_like:
+            allowed |= {s.split(".")[-1] for s in g["subs"]}
+            allowed |= {"PubOne"}  # inherits the other members even when it overrides one of them
+    return allowed
 
 
 def _home_names0(info: dict) -> tuple[set[str], set[str]]:
@@ -101,6 +146,7 @@ def attachment_violations(pkg: dict, res: dict, nc: bool = False, matched_style:
     if not table or res.get("outcome") != "completed":
         return viols, stats
     seen: set[str] = set()
+    probes = (pkg.get("meta") or {}).get("probes") or {}
     aliases = ((pkg.get("meta") or {}).get("probes") or {}).get("aliases") or {}
     for rel, ent in sorted(engine.output_files(res["out_tree"]).items()):
         if not rel.endswith(".sdsstub"):
@@ -123,6 +169,12 @@ def attachment_violations(pkg: dict, res: dict, nc: bool = False, matched_style:
                 kinds, names = _home_names(info, aliases)
                 d = c["decl"]
                 ok = d is not None and d["kind"] in kinds and (d["python_name"] in names or d["name"] in names)
+                if ok and info["kind"] in ("F", "P", "R", "X", "A") and c.get("enclosing") is not None:
+                    allowed = _allowed_classes(info, probes, aliases)
+                    if allowed and c["enclosing"] not in allowed and not (d and d["kind"] == "class" and d["python_name"] in allowed):
+                        viols.append({"class": "docstring-in-wrong-class", "detail": {
+                            "path": rel, "line": c["line"], "token": tok, "token_belongs_to": info, "found_in_class": c["enclosing"], "allowed_classes": sorted(allowed),
+                            "found_on": d, "fingerprint": {"gkey": f"wrong-class-{info['kind']}"}}})
                 if ok and matched_style and info.get("lines") and info["kind"] in ("C", "F") and f"Summary {tok}" in c["text"]:
                     # "line for line": the whole description, blank lines included, follows its first line in order
                     got = [re.sub(r"^\s*\* ?", "", cl).rstrip() for cl in c["text"].split("\n")[1:]]
